@@ -11,8 +11,11 @@
 (*     every message of <= MaxTok tokens over Toks, every pair of messages *)
 (*     of <= MaxPairTok tokens:                                            *)
 (*       WantedOK   ParseES(FrameWanted(..)) is exactly the messages       *)
-(*       ImplDev    ParseES(FrameImpl(..)) is exactly the messages, or the *)
-(*                  named deviation "lone-cr" applies                      *)
+(*       ImplOK     ParseES(FrameImpl(..)) is exactly the messages (the    *)
+(*                  encoder as repaired)                                   *)
+(*       ImplDev    ParseES(FrameOriginal(..)), the encoder before the     *)
+(*                  repair, is exactly the messages or the named deviation *)
+(*                  "lone-cr" applies                                      *)
 (*       DevSharp   and when it applies the decode IS wrong (the finding's *)
 (*                  class is exact, not an over-approximation)             *)
 (* The choice is a Next step from one initial state (two levels) so that   *)
@@ -39,18 +42,20 @@ FNext == /\ UNCHANGED vars
 FSpec == FInit /\ [][FNext]_<<vars, x>>
 
 WantedOK == x.t = "msgs" => Delivers(WireOf(FrameWanted, x.ms), x.ms)
-ImplDev  == x.t = "msgs" => (Delivers(WireOf(FrameImpl, x.ms), x.ms) \/ CrClass(x.ms) = "lone-cr")
-DevSharp == x.t = "msgs" => (CrClass(x.ms) = "lone-cr" => ~Delivers(WireOf(FrameImpl, x.ms), x.ms))
+ImplOK   == x.t = "msgs" => Delivers(WireOf(FrameImpl, x.ms), x.ms)
+ImplDev  == x.t = "msgs" => (Delivers(WireOf(FrameOriginal, x.ms), x.ms) \/ CrClass(x.ms) = "lone-cr")
+DevSharp == x.t = "msgs" => (CrClass(x.ms) = "lone-cr" => ~Delivers(WireOf(FrameOriginal, x.ms), x.ms))
 \* Normalize is idempotent and removes every CR
 NormOK == x.t = "msgs" => \A i \in 1..Len(x.ms) :
             LET n == Normalize(Atoms(x.ms[i])) IN ~HasCR(n) /\ Normalize(n) = n
 
-\* the example of DESIGN section 5: `x CR event:y` is sent as `data: x CR event:y`, i.e. an injected `event` field
-ASSUME Outcome(FrameImpl(Atoms(<<"x", "CR", "EV", "y">>)), << <<"x", "CR", "EV", "y">> >>) = "field-injected"
-ASSUME Outcome(FrameImpl(Atoms(<<"x", "CR", "y">>)), << <<"x", "CR", "y">> >>) = "data-altered"
-ASSUME Outcome(FrameImpl(Atoms(<<"x", "CR", "CR", "DATA", "y">>)), << <<"x", "CR", "CR", "DATA", "y">> >>) = "extra-event"
+\* the example of DESIGN section 5: before the repair `x CR event:y` was sent as `data: x CR event:y`, i.e. an injected `event` field
+ASSUME Outcome(FrameOriginal(Atoms(<<"x", "CR", "EV", "y">>)), << <<"x", "CR", "EV", "y">> >>) = "field-injected"
+ASSUME Outcome(FrameOriginal(Atoms(<<"x", "CR", "y">>)), << <<"x", "CR", "y">> >>) = "data-altered"
+ASSUME Outcome(FrameOriginal(Atoms(<<"x", "CR", "CR", "DATA", "y">>)), << <<"x", "CR", "CR", "DATA", "y">> >>) = "extra-event"
 ASSUME Outcome(FrameImpl(Atoms(<<"x", "CRLF", "y">>)), << <<"x", "CRLF", "y">> >>) = "ok"
 ASSUME Outcome(FrameWanted(Atoms(<<"x", "CR", "EV", "y">>)), << <<"x", "CR", "EV", "y">> >>) = "ok"
+ASSUME Outcome(FrameImpl(Atoms(<<"x", "CR", "EV", "y">>)), << <<"x", "CR", "EV", "y">> >>) = "ok"
 \* an empty message is an event with empty data, not nothing
 ASSUME ParseES(FrameImpl(<<>>)).out = <<[data |-> <<>>, type |-> <<>>, id |-> <<>>]>>
 =============================================================================
